@@ -878,6 +878,13 @@ func genC18(r *simrt.Rand, tier string, idx uint64) *Plan {
 		for c := 0; c < 1+r.Intn(8); c++ {
 			p.Clients = append(p.Clients, ClientPlan{Ops: []Op{{Kind: "sleep", N: r.Intn(50) * 1000}, {Kind: cForms[r.Intn(len(cForms))]}}})
 		}
+		if r.Chance(1, 2) {
+			// callers spread over the whole outage: some give up on their own (DialTimeout) while
+			// others, older and younger, are still parked when the target comes up
+			for c := 0; c < 2+r.Intn(5); c++ {
+				p.Clients = append(p.Clients, ClientPlan{Ops: []Op{{Kind: "sleep", N: r.Intn(up+1) * 1000}, {Kind: cForms[r.Intn(len(cForms))]}}})
+			}
+		}
 		if comes {
 			// callers that arrive at the very instant the detector's probe finds the target up
 			// (registration races the release of the waiters)
